@@ -38,7 +38,8 @@ OBLIGATIONS = {"outside:left": 100, "outside:right": 100, "outside:bottom": 100,
                "construction-path:1": 20, "construction-path:2": 20,
                "construction-path:3": 20, "construction-path:4": 20,
                "construction-path:5": 20, "batch:single-value": 50,
-               "batch:origin-inside": 5}
+               "batch:origin-inside": 5, "batch:whole-grid-size": 30,
+               "grid:more-than-2^31-cells": 1}
 
 
 def G():
@@ -173,6 +174,32 @@ def run_geom_case(ctx, case):
     ctx.evaluated(njudged)
     ctx.check("coord2cell.inside", bad is None, "coord2cell|inside-footprint", case,
               lambda: {"x,y,got,expected,edge_dist": bad})
+    # ---- batches that name every cell once, in another order, or as many cells as the
+    # grid has with repeats (first and last cell at the ends)
+    if 3 <= n <= 400:
+        mid = rng.permutation(np.arange(1, n - 1))
+        batches = {"all-shuffled": np.concatenate([[0], mid, [n - 1]]),
+                   "all-reversed": np.arange(n)[::-1].copy(),
+                   "n-with-repeats": np.concatenate([[0], rng.integers(0, n, size=n - 2),
+                                                     [n - 1]])}
+        for bname, bc in batches.items():
+            bc = bc.astype(np.int64)
+            ctx.tag("batch:whole-grid-size")
+            ctx.api("cell2coord")
+            ctx.api("cell2rowcol")
+            bxy = np.asarray(gr.cell2coord(bc), dtype=float)
+            brc = np.asarray(gr.cell2rowcol(bc))
+            badb = None
+            for j, c in enumerate(bc):
+                ex, ey = g.centre(int(c))
+                if abs(Fraction(float(bxy[j, 0])) - ex) > tol or \
+                        abs(Fraction(float(bxy[j, 1])) - ey) > tol or \
+                        tuple(int(v) for v in brc[j]) != g.rowcol(int(c)):
+                    badb = (j, int(c), bxy[j].tolist(), brc[j].tolist())
+                    break
+            ctx.check("batch.whole-grid-size", badb is None,
+                      f"cell2coord-cell2rowcol|batch-{bname}", case,
+                      lambda: {"position,cell,coord,rowcol": badb})
     # ---- batches of one point / of identical points, incl. the origin itself
     for px, py in ((0.0, 0.0), (float(pts[0, 0]), float(pts[0, 1]))):
         ec, dist = g.locate(px, py)
@@ -323,7 +350,47 @@ def run_geom_case(ctx, case):
               lambda: {"xvalues": xv[:5], "yvalues": yv[:5]})
 
 
+def run_huge_grid(ctx):
+    """a grid with more than 2^31 cells (a continental 30 m raster): cell numbers beyond
+    the 32-bit range are ordinary valid cells (int8 cells, allocated lazily)"""
+    Grid = G()
+    nrows, ncols = 32769, 65536
+    try:
+        gr = Grid("huge", ncols, nrows, cellsize=0.25, xllcorner=-1200.0,
+                  yllcorner=-7852.0, dtype=np.int8)
+    except MemoryError:
+        ctx.notes.append("huge grid: not enough memory, skipped")
+        return
+    g = Geom(nrows, ncols, -1200.0, -7852.0, 0.25)
+    case = {"kind": "huge"}
+    cells = np.array([0, 2 ** 31 - 1, 2 ** 31, 2 ** 31 + 1, 2 ** 31 + 40007,
+                      nrows * ncols - 1, 2 ** 31 + 12345], dtype=np.int64)
+    ctx.tag("grid:more-than-2^31-cells")
+    ctx.evaluated(len(cells))
+    xy = np.asarray(gr.cell2coord(cells), dtype=float)
+    rc = np.asarray(gr.cell2rowcol(cells))
+    back = np.asarray(gr.coord2cell(xy))
+    ctx.api("cell2coord")
+    ctx.api("cell2rowcol")
+    ctx.api("coord2cell")
+    bad = None
+    for j, c in enumerate(cells):
+        ex, ey = g.centre(int(c))
+        nb = [int(v) for v in gr.neighbours(int(c))]
+        if abs(Fraction(float(xy[j, 0])) - ex) > 1e-6 or \
+                abs(Fraction(float(xy[j, 1])) - ey) > 1e-6 or \
+                tuple(int(v) for v in rc[j]) != g.rowcol(int(c)) or int(back[j]) != int(c) \
+                or nb != g.neighbours(int(c)):
+            bad = (int(c), xy[j].tolist(), rc[j].tolist(), int(back[j]))
+            break
+        ctx.nontrivial("huge", int(c))
+    ctx.check("huge-grid.consistent", bad is None, "huge-grid|cell-beyond-2^31", case,
+              lambda: {"cell,coord,rowcol,back": bad})
+
+
 def run(ctx):
+    if ctx.shard == 0:
+        run_huge_grid(ctx)
     rng = ctx.rng(1)
     nrep = 40 if ctx.tier == "quick" else 3000
     for it in range(nrep):
@@ -339,4 +406,6 @@ def run(ctx):
 
 
 def replay(ctx, case):
+    if case.get("kind") == "huge":
+        return run_huge_grid(ctx)
     run_geom_case(ctx, case)
